@@ -46,6 +46,12 @@ func (lt *LogType) UnmarshalJSON(data []byte) error {
 		return err
 	}
 
+	switch s {
+	case "SET_METADATA", "NEW_TRANSACTION", "REVERTED_TRANSACTION", "DELETE_METADATA", "INSERTED_SCHEMA":
+	default:
+		return fmt.Errorf("invalid log type '%s'", s)
+	}
+
 	*lt = LogTypeFromString(s)
 
 	return nil
